@@ -12,7 +12,7 @@ func init() {
 			Prop: "C11",
 			Pkgs: []string{"board", "uci", "attacks"},
 			Bounds: []string{
-				"robustness: every byte string of length 0..L, L = 20 (quick) / 40 (thorough), all bytes symbolic, length symbolic; every parser loop unrolled L+2 times with an unwinding assertion; no-panic over every index/slice/shift/map site of ParseFEN and fenParser.*",
+				"robustness: every byte string of length 0..L, L = 20 (quick) / 24 (thorough), all bytes symbolic, length symbolic; every parser loop unrolled L+2 times with an unwinding assertion; no-panic over every index/slice/shift/map site of ParseFEN and fenParser.*; thorough additionally L = 32 for the no-panic and unwinding obligations only",
 				"board reuse: the same bytes (length <= L-4) parsed into a zero board and into a board holding an arbitrary earlier position give the same verdict and position",
 				"piece-count gate: ARBITRARY valid position (no material bound beyond validity)",
 				"position command: board.FromFEN replaced by an arbitrary (board, error) result; the board returned is an arbitrary symbolic board",
@@ -28,9 +28,13 @@ func init() {
 		}
 		L := int64(20)
 		if tier == "thorough" {
-			L = 40
+			L = 24
+			// longer strings: no-panic and unwinding obligations only (the counter-range assertion is unknown after
+			// 600 s at 32 and 40 bytes)
+			s.Instances = append(s.Instances, run.Instance{Pkg: "board", Func: "VpH_C11_robust", Params: map[string]int64{"maxlen": 32, "panics_only": 1},
+				Opt: run.Options{LoopBound: 34, UnwindMode: "assert", TimeoutMs: 900000}})
 		}
-		s.Instances = append(s.Instances, run.Instance{Pkg: "board", Func: "VpH_C11_robust", Params: map[string]int64{"maxlen": L},
+		s.Instances = append(s.Instances, run.Instance{Pkg: "board", Func: "VpH_C11_robust", Params: map[string]int64{"maxlen": L, "panics_only": 0},
 			Opt: run.Options{LoopBound: int(L) + 2, UnwindMode: "assert", TimeoutMs: 600000}})
 		s.Instances = append(s.Instances, run.Instance{Pkg: "board", Func: "VpH_C11_reuse", Params: map[string]int64{"maxlen": L - 4},
 			Opt: run.Options{LoopBound: int(L) + 2, UnwindMode: "assume", PanicMode: "ignore", TimeoutMs: 600000}})
